@@ -1,6 +1,8 @@
 package dawn
 
 import (
+	"crypto/rand"
+	"encoding/hex"
 	"encoding/json"
 	"fmt"
 	"io"
@@ -10,6 +12,7 @@ import (
 	"path/filepath"
 	"regexp"
 	"sort"
+	"strconv"
 	"strings"
 	"sync"
 	"time"
@@ -408,6 +411,18 @@ type targetInfo struct {
 	Dependencies map[string]string `json:"dependencies,omitempty"`
 	Data         string            `json:"stamp,omitempty"`
 	Rerun        bool              `json:"rerun,omitempty"`
+	// Run identifies the target's latest successful execution. Dependents record it next to
+	// the stamp, so that they notice a dependency that was re-executed by an earlier build.
+	Run string `json:"run,omitempty"`
+}
+
+// newRunID returns a fresh identifier for one successful execution of a target.
+func newRunID() string {
+	var b [8]byte
+	if _, err := rand.Read(b[:]); err != nil {
+		return strconv.FormatInt(time.Now().UnixNano(), 16)
+	}
+	return hex.EncodeToString(b[:])
 }
 
 func (proj *Project) targetInfoPath(l *label.Label) string {
